@@ -68,16 +68,21 @@ class Buffer(NamedUIDObject):
         self._unloading_tasks[task] = quantity
         # the buffer is unloaded at the task start time
         # append a new level level and a new level change time
-        self._level_changes_time.append(z3.Int(f"{self.name}_sc_time_{task.name}"))
-        self._buffer_levels.append(z3.Int(f"{self.name}_level_{task.name}"))
+        # (a task may both unload and load the same buffer: distinct variables for each access)
+        self._level_changes_time.append(
+            z3.Int(f"{self.name}_sc_time_{task.name}_unloading")
+        )
+        self._buffer_levels.append(z3.Int(f"{self.name}_level_{task.name}_unloading"))
 
     def add_loading_task(self, task, quantity) -> None:
         # store quantity
         self._loading_tasks[task] = quantity
         # the buffer is loaded at the task completion time
         # append a new level level and a new level change time
-        self._level_changes_time.append(z3.Int(f"{self.name}_sc_time_{task.name}"))
-        self._buffer_levels.append(z3.Int(f"{self.name}_level_{task.name}"))
+        self._level_changes_time.append(
+            z3.Int(f"{self.name}_sc_time_{task.name}_loading")
+        )
+        self._buffer_levels.append(z3.Int(f"{self.name}_level_{task.name}_loading"))
 
 
 class NonConcurrentBuffer(Buffer):
